@@ -117,7 +117,7 @@ def run(tier, seed):
                            "C02_trop_exact, C02_real_enclosure_sound, C02_fp_check_trop_sound, C02_fp_check_real_sound keep the law records (sr_ring, sr_ordered) of trop_ops / ereal_ops as premises until Proofs/SemiringLaws.v (C08) is merged; the Bool instances are unconditional",
                            "C02_kleene_is_bounded_depth (Zk = sum over derivation trees of depth <= k) is proved separately in Proofs/SP_trees.v; the theorems here speak about Zk",
                            "must_warn unrolls the first kmax+1 stopping tests (kmax in {1,2}) on tables built with the code-shaped F_model; the loop theorems (C02_fixed_point_warns_iff, C02_newton_warns_iff) are about an abstract F/close -- F_model = step on the range (C01's spe theorem lifted to recursive components) is not connected here",
-                           "C02_linear_affine gives F x = J0.x + F0 with linear's J0/F0; that multi_solve J0 F0 is the least solution is C09's theorem and is not connected here; C02_scc_decomposition (SCC-by-SCC evaluation = global least fixed point) is not proved"])
+                           "C02_linear_affine gives F x = J0.x + F0 with linear's J0/F0; that multi_solve J0 F0 is the least solution is C09's theorem and is not connected here; C02_scc_decomposition is proved for exactly solved components (Prop-level exact_run), not for the table-level driver with approximate per-component results"])
     return cov, violations
 
 def replay(path):
